@@ -59,7 +59,8 @@ ErrFlag(o) == o.er # 0
 \* (hostile input can claim any count: the model caps it so that its 32 bit arithmetic stays exact; scenarios never read that far)
 Adopt(s, o) == [s EXCEPT !.rpos = o.rp, !.wpos = o.wp,
                          !.frames = IF FrObs(s) THEN (IF s.relax THEN Min(o.fr, 1000000) ELSE o.fr) ELSE Max(s.frames, o.wp),
-                         !.err = ErrFlag(o)]
+                         !.err = ErrFlag(o),
+                         !.nd = IF "nd" \in DOMAIN o THEN o.nd ELSE @, !.nf = IF "nf" \in DOMAIN o THEN o.nf ELSE @]
 
 -----------------------------------------------------------------------------
 \* sf_read_short/int/float/double and sf_readf_* (c.T in s i f d; c.unit in i f)
